@@ -85,6 +85,8 @@ def short_worker(ctx, job):
                 fsutil.wipe(dest)
                 return fsx.run({"roots": [cache, aux], "actors": [fsx.actor(flavour, "R", pf)], "timeout_ms": 20000, "faults": faults}, ctx.dir)
 
+            _raw_run_one = run_one
+            run_one = lambda faults, _f=_raw_run_one: fsx.confirmed(lambda: _f(faults))
             probe = run_one([])
             steps = [s_ for s_ in probe["steps"] if s_.get("step") is not None]
             sets = [[]]
